@@ -190,7 +190,7 @@ func renderVTT(d vttDoc, r vttRendering) []byte {
 	}
 	emit(head)
 	if d.TSMap != nil {
-		loc := "LOCAL:" + fmtVTTTime(d.TSMap.LocalMs, false)
+		loc := "LOCAL:" + fmtVTTTime(d.TSMap.LocalMs, r.ShortTimes && r.TSMapOrder)
 		ts := fmt.Sprintf("MPEGTS:%d", d.TSMap.MpegTS)
 		if r.TSMapOrder {
 			emit("X-TIMESTAMP-MAP=" + ts + "," + loc)
